@@ -35,6 +35,7 @@ RELATIONS = [
     ("cp_apr:pdnr", "dense-sparse"), ("cp_apr:pdnr", "print"), ("cp_apr:pdnr", "seed"),
     ("cp_apr:pqnr", "dense-sparse"), ("cp_apr:pqnr", "print"), ("cp_apr:pqnr", "seed"),
     ("gcp:lbfgsb", "print"), ("gcp:lbfgsb", "seed"), ("gcp:sgd", "seed"), ("gcp:adam", "seed"), ("gcp:sgd", "print"),
+    ("gcp:sgd", "seed-sparse"), ("gcp:adam", "seed-sparse"),
 ]
 
 
@@ -237,7 +238,26 @@ def run_case(case, ctx):
             if sub == "adam":
                 return Adam(rate=1e-3, epoch_iters=3, max_iters=3, printitn=0)
             return SGD(rate=1e-3, epoch_iters=3, max_iters=3, printitn=0)
-        if rel == "print":
+        if rel == "seed-sparse":
+            # sparse data and a sampler that takes fewer nonzeros / zeros than there are: every random draw of the run (starting guess,
+            # sampled nonzeros, sampled zeros) must come from the global stream the seed controls
+            from pyttb.gcp.samplers import GCPSampler, Samplers, StratifiedCount
+
+            Xs = np.where(rng.random(shape) < 0.5, np.round(np.abs(X) * 4 + 1), 0.0)
+            S = gen.mk_sptensor(ttb, Xs, gen.stored_order(rng, int(np.count_nonzero(Xs)), "shuffled"))
+            nnz = int(S.nnz)
+            kind = [Samplers.STRATIFIED, Samplers.SEMISTRATIFIED][case["cseed"] % 2]
+            ctx.feat(sampler=kind.name)
+
+            def smp():
+                k = max(1, nnz // 3)
+                return GCPSampler(S, function_sampler=Samplers.STRATIFIED, function_samples=StratifiedCount(max(1, nnz // 2), max(1, nnz // 2)),
+                                  gradient_sampler=kind, gradient_samples=StratifiedCount(k, k))
+            a = seeded(ttb.gcp_opt, S, R, Objectives.GAUSSIAN, mk(), sampler=smp(), printitn=0)
+            b = seeded(ttb.gcp_opt, S, R, Objectives.GAUSSIAN, mk(), sampler=smp(), printitn=0)
+            _cmp(ctx, op, denote(a[0]), denote(b[0]), "same seed twice (sparse data, subsampled nonzeros)", exact=True)
+            _cmp(ctx, op, denote(a[1]), denote(b[1]), "same seed twice: starting guess", exact=True, which="guess")
+        elif rel == "print":
             a = seeded(ttb.gcp_opt, T, R, Objectives.GAUSSIAN, mk(), printitn=0)
             b = seeded(ttb.gcp_opt, T, R, Objectives.GAUSSIAN, mk(), printitn=1)
             _cmp(ctx, op, denote(a[0]), denote(b[0]), "printitn 0 vs 1", exact=(sub != "lbfgsb"))
